@@ -158,6 +158,14 @@ int main(int argc, char** argv) {
       printf("ids live=%zu distinct=%d\n", live.size(), distinct ? 1 : 0);
       continue;
     }
+    if (w == "snapuser") {
+      // copy the persisted user settings (user.yaml as it is on disk right now) aside; prints nothing
+      std::string to; is >> to;
+      std::ifstream in(ws + "/user.yaml", std::ios::binary);
+      std::ofstream out(to, std::ios::binary);
+      if (in) out << in.rdbuf();
+      continue;
+    }
     if (w == "new") { cur = api->create_session(); sessions.push_back(cur); alive.push_back(cur != 0); ret = cur != 0; }
     else if (w == "use") { size_t k; is >> k; cur = k < sessions.size() ? sessions[k] : 0; }
     else if (w == "cleanup_all") { api->cleanup_all_sessions(); for (size_t k = 0; k < alive.size(); ++k) alive[k] = false; }
